@@ -144,6 +144,8 @@ async def play(c):
 
     first = [True]
 
+    polled = [0]
+
     async def receive():
         if first[0]:
             first[0] = False
@@ -153,7 +155,12 @@ async def play(c):
         d = c["disc"] - loop.time()
         if d > 0:
             await asyncio.sleep(d)
-        log("disc")
+        polled[0] += 1
+        if polled[0] > 2000:      # told two thousand times that the client is gone, and asking again: a busy loop
+            from ..servers import Livelock
+            raise Livelock("receive() polled %d times after the disconnect" % polled[0])
+        if polled[0] == 1:      # (logged once: an application that keeps asking is told again, silently)
+            log("disc")
         return {"type": "http.disconnect"}
 
     async def send(m):
